@@ -324,12 +324,16 @@ fn exec(problem: &P, state: &mut State<'static, P>, a: &Value, k: usize) -> Valu
             };
             let counter = Arc::new(AtomicU32::new(0));
             let seen = Arc::new(AtomicU32::new(0));
-            let b = Configuration::builder().do_(Box::new(CountLeaf { n: counter.clone() }) as Box<dyn Component<P>>);
+            let before = Arc::new(AtomicU32::new(0));
+            let b = Configuration::builder()
+                .do_(Box::new(CountLeaf { n: counter.clone() }) as Box<dyn Component<P>>)
+                .do_(Box::new(PeekEvals { seen: before.clone() }) as Box<dyn Component<P>>);
             let b = if i == 0 { b.evaluate_with::<Global>() } else { b.evaluate_with::<A>() };
             let body = b.do_(Box::new(PeekEvals { seen: seen.clone() }) as Box<dyn Component<P>>).build_component();
             let scope = Scope::new_with(init, body, |_, _| Ok(()));
             match caught(|| scope.execute(problem, state)) {
-                Ok(Ok(())) => r("ok", seen.load(Ordering::SeqCst) as i64),
+                // by how much the counter the body sees advanced over the step
+                Ok(Ok(())) => r("ok", seen.load(Ordering::SeqCst) as i64 - before.load(Ordering::SeqCst) as i64),
                 Ok(Err(_)) => r("err", counter.load(Ordering::SeqCst) as i64),
                 Err(_) => r("panic", counter.load(Ordering::SeqCst) as i64),
             }
